@@ -11,8 +11,13 @@ EXPLANATION = (
     "UID alphabet is inside the language of the corresponding regex group (reader covers writer). Not decided: which "
     "tokens are valid beyond what the validators declare."
 )
-ASSUMPTIONS = ["the element validators behave as the C10 rules establish"]
+ASSUMPTIONS = ["the element validators behave as the C10 rules establish - their refusing side (T-R2 required, T-R3 length / membership, T-R4 guard strictness) is re-evaluated here, the rest is C10's"]
 
 
 def run(project, rep):
     rep.run(H.b_rules, project, rep)
+    from .. import rules_types as T
+    rep.rule("B-R10", "the validators the header fields are declared with refuse what is outside their domain (T-R2, T-R3, T-R4)")
+    rep.run(T.t_r2, project, rep)
+    rep.run(T.t_r3, project, rep)
+    rep.run(T.t_r4, project, rep)
